@@ -47,6 +47,56 @@ theorem buffer_field (h : Hasher) (hi : h.Inv) :
   have hl : (pend ++ zeros (32 - pend.length)).length = 32 := by simp [zeros]; omega
   rw [List.take_append_of_le_length (by omega), List.take_of_length_le (by omega)]
 
+/-- the encoding is faithful: equal checkpoint bytes force equal logical states (the converse of
+`ckpt_of_abs`), for hashers on any two back ends -/
+theorem injective (h1 h2 : Hasher) (i1 : h1.Inv) (i2 : h2.Inv) (e : h1.checkpoint = h2.checkpoint) :
+    h1.abs = h2.abs := by
+  rw [Hasher.checkpoint_abs _ i1, Hasher.checkpoint_abs _ i2] at e
+  have d1 := P.decode_encode h1.abs (Hasher.abs_pending_lt h1 i1)
+  have d2 := P.decode_encode h2.abs (Hasher.abs_pending_lt h2 i2)
+  rw [← d1, ← d2, e]
+
+/-- hence the 164 bytes determine every later observation: two hashers (any back ends, any histories)
+with equal checkpoints agree on every digest and every later checkpoint after any further chunk list -/
+theorem equal_ckpt_equal_future (h1 h2 : Hasher) (i1 : h1.Inv) (i2 : h2.Inv) (e : h1.checkpoint = h2.checkpoint)
+    (c1 c2 : List (List (BitVec 8))) (ec : c1.flatten = c2.flatten) (w : Width) :
+    (c1.foldl Hasher.append h1).finalize w = (c2.foldl Hasher.append h2).finalize w ∧
+    (c1.foldl Hasher.append h1).checkpoint = (c2.foldl Hasher.append h2).checkpoint := by
+  have ea := injective h1 h2 i1 i2 e
+  have a1 := Hasher.foldl_append_abs c1 h1 i1
+  have a2 := Hasher.foldl_append_abs c2 h2 i2
+  constructor
+  · rw [Hasher.finalize_abs _ w a1.2, Hasher.finalize_abs _ w a2.2, a1.1, a2.1, ea, ec]
+  · rw [Hasher.checkpoint_abs _ a1.2, Hasher.checkpoint_abs _ a2.2, a1.1, a2.1, ea, ec]
+
+/-- the trailer (bytes 160..164) is the little-endian pending count, always below 32 -/
+theorem count_field (h : Hasher) (hi : h.Inv) :
+    h.checkpoint.drop 160 = toLE32 (BitVec.ofNat 32 h.abs.2.length) ∧ h.abs.2.length < 32 := by
+  have hlt := Hasher.abs_pending_lt h hi
+  refine ⟨?_, hlt⟩
+  rw [Hasher.checkpoint_abs h hi]
+  generalize h.abs = a at hlt ⊢
+  obtain ⟨s, pend⟩ := a
+  simp only at hlt ⊢
+  have e : P.encodeAbs (s, pend) =
+      s.v0.toList.flatMap toLE64 ++ (s.v1.toList.flatMap toLE64 ++ (s.mul0.toList.flatMap toLE64 ++
+        (s.mul1.toList.flatMap toLE64 ++ ((pend ++ zeros (32 - pend.length)) ++ toLE32 (BitVec.ofNat 32 pend.length))))) := by
+    simp only [P.encodeAbs, P.lanes16, List.flatMap_append, List.append_assoc]
+  rw [e]
+  show List.drop (128 + 32) _ = _
+  rw [← List.drop_drop, P.drop128_v4]
+  have hl : (pend ++ zeros (32 - pend.length)).length = 32 := by simp [zeros]; omega
+  rw [List.drop_append, List.drop_of_length_le (by omega), hl]
+  simp
+
+/-- non-vacuity: a concrete pair of portable hashers with different histories meets the premises -/
+example :
+    let d : List (BitVec 8) := (List.range 40).map (BitVec.ofNat 8)
+    let a := P.append (P.append (P.new ⟨1, 2, 3, 4⟩) (d.take 31)) (d.drop 31)
+    let b := P.append (P.new ⟨1, 2, 3, 4⟩) d
+    (Hasher.portable a).checkpoint = (Hasher.portable b).checkpoint ∧ a.buffer.buf ≠ b.buffer.buf := by
+  decide +kernel
+
 /-- the pinned tree wrote the whole buffer: stale bytes of a longer earlier fill leak -/
 def legacyCheckpointBuf (x : P.State) : List (BitVec 8) := x.buffer.buf
 
